@@ -1063,3 +1063,4 @@ def run_def(ex, st, fdef, args=(), kwargs=None):
         else:
             raise OutOfSubset('%s escaping %s' % (o.kind, fdef.name))
     return res
+
